@@ -1,6 +1,8 @@
 import Driver.Util
 import Slock.Model.MsWheel
-/-! Driver command for M-MSWHEEL:  `msw <startSecond> <T>`  →  `fire` | `second:<deadline>`;  `mswf <startSecond> <T>` → `<next> defer:<seconds>` -/
+/-! Driver command for M-MSWHEEL:  `msw <startSecond> <T>`  →  `fire` | `second:<deadline>`;  `mswf <startSecond> <T>` → `<next> defer:<seconds>`;
+`msupd <place wheel|long|parked|handed> <op u|r> <countsEq 0|1> <now> <expT> <unit s|ms> <val>` →
+`ignored` | `second:<deadline>[:long]` | `reparked:<deadline>` | `stale:<deadline>:<fire|second:<d>>` -/
 namespace Driver
 open Slock.Ms
 
@@ -14,7 +16,15 @@ def handleMs (toks : List String) : Option String :=
     match s.toNat?, t.toNat? with
     | some s, some t => some s!"{showNext (afterPark s t)} defer:{followerDefer 0}"
     | _, _ => some "bad-op"
+  | ["msupd", pl, op, ce, now, expT, u, val] =>
+    match parsePlace pl, now.toNat?, expT.toNat?, val.toNat? with
+    | some pl, some now, some expT, some val =>
+      if (op = "u" || op = "r") && (ce = "0" || ce = "1") && (u = "s" || u = "ms") then
+        some (showReterm now val (reterm pl (op = "u") (ce = "1") now expT (u = "ms") val))
+      else some "bad-op"
+    | _, _, _, _ => some "bad-op"
   | "msw" :: _ => some "bad-op"
+  | "msupd" :: _ => some "bad-op"
   | _ => none
 
 end Driver
